@@ -11,6 +11,7 @@ Variables lower upper : str -> str.
 Variable parse_tree : mapper -> tz -> res (option T * mapper * tz).
 Variable set_label : T -> option str -> T.
 Variable add_comments : T -> list str -> T.
+Variables va vk : bool.
 
 Hypothesis parse_tree_suf : forall m z ot m' z',
   parse_tree m z = Ok (ot, m', z') -> suf (z_toks z') (z_toks z).
@@ -18,7 +19,7 @@ Hypothesis upper_idem : forall s, upper (upper s) = upper s.
 
 Notation NR := (nexus_read T lower upper parse_tree set_label add_comments).
 Notation NY := (nexus_yield T lower upper parse_tree set_label add_comments).
-Notation TLR := (treelist_read T lower upper parse_tree set_label add_comments).
+Notation TLR := (treelist_read T lower upper parse_tree set_label add_comments va).
 Notation YFF := (yield_from_files T lower upper parse_tree set_label add_comments).
 Notation RB := (read_blocks T lower upper parse_tree set_label add_comments).
 Notation ROY := (nexus_read_of_yield T lower upper parse_tree set_label add_comments parse_tree_suf upper_idem).
@@ -54,17 +55,17 @@ Proof.
 Qed.
 
 (* from the list route's configuration to the attached one *)
-Lemma yield_attached : forall sl fac ns0 d out k' g1',
-  NY (mkNsCfg false (FacFixed sl)) ns0 d = (out, Ok (k', g1')) ->
+Lemma yield_attached : forall a1 sl fac ns0 d out k' g1',
+  NY (mkNsCfg a1 (FacFixed sl)) ns0 d = (out, Ok (k', g1')) ->
   NY (mkNsCfg true fac) ns0 d = (out, Ok (k', mkRegs (if has_ns0 (mkNsCfg true fac) then [None] else []) [])).
 Proof.
-  intros sl fac ns0 d out k' g1' H. unfold nexus_yield in *.
-  assert (I : inv (regs_init (mkNsCfg false (FacFixed sl)))) by (unfold inv; simpl; constructor).
-  pose proof (y_items_12 T lower upper parse_tree set_label add_comments sl fac false (doc_fuel d)
-                (core_init (mkNsCfg false (FacFixed sl)) ns0 d) (regs_init (mkNsCfg false (FacFixed sl)))
+  intros a1 sl fac ns0 d out k' g1' H. unfold nexus_yield in *.
+  assert (I : inv (regs_init (mkNsCfg a1 (FacFixed sl)))) by (unfold inv; simpl; constructor).
+  pose proof (y_items_12 T lower upper parse_tree set_label add_comments a1 sl fac false (doc_fuel d)
+                (core_init (mkNsCfg a1 (FacFixed sl)) ns0 d) (regs_init (mkNsCfg a1 (FacFixed sl)))
                 (regs_init (mkNsCfg true fac)) I) as R.
   unfold yrel in R. rewrite H in R. destruct R as [R _].
-  assert (EC : core_init (mkNsCfg false (FacFixed sl)) ns0 d = core_init (mkNsCfg true fac) ns0 d).
+  assert (EC : core_init (mkNsCfg a1 (FacFixed sl)) ns0 d = core_init (mkNsCfg true fac) ns0 d).
   { unfold core_init, has_ns0. simpl. destruct fac; reflexivity. }
   rewrite <- EC. rewrite R. reflexivity.
 Qed.
@@ -75,10 +76,10 @@ Lemma routes_agree_nexus_l : forall (ns0 : list str) (d : doc) ts ns,
   TLR Nexus ns0 d = Ok (ts, ns) -> YFF Nexus ns0 d = (ts, Ok ns).
 Proof.
   intros ns0 d ts ns N H. unfold treelist_read in H.
-  destruct (NR cfg_list ns0 d) as [s|e|] eqn:E; cbn [bind] in H; try discriminate.
+  destruct (NR (cfg_list va) ns0 d) as [s|e|] eqn:E; cbn [bind] in H; try discriminate.
   inversion H; subst; clear H.
-  destruct (nr_ok_yield (c_ns cfg_list) TLFixed ns0 d s N E) as [g' HY].
-  apply (yield_attached true (FacFixed false)) in HY.
+  destruct (nr_ok_yield (c_ns (cfg_list va)) TLFixed ns0 d s N E) as [g' HY].
+  apply (yield_attached va true (FacFixed false)) in HY.
   rewrite yield_from_files_nexus. unfold cfg_yield at 1 2. cbn [c_ns].
   unfold nexus_yield in HY. unfold cfg_list in HY. cbn [c_ns] in HY.
   unfold nexus_yield. unfold cfg_yield. cbn [c_ns]. rewrite HY. reflexivity.
@@ -92,10 +93,10 @@ Lemma dataset_attached_l : forall (d : doc) ts ns,
                  /\ concat blocks = ts.
 Proof.
   intros d ts ns N H. unfold treelist_read in H.
-  destruct (NR cfg_list [] d) as [s|e|] eqn:E; cbn [bind] in H; try discriminate.
+  destruct (NR (cfg_list va) [] d) as [s|e|] eqn:E; cbn [bind] in H; try discriminate.
   inversion H; subst; clear H.
-  destruct (nr_ok_yield (c_ns cfg_list) TLFixed [] d s N E) as [g' HY].
-  apply (yield_attached true (FacFixed false)) in HY.
+  destruct (nr_ok_yield (c_ns (cfg_list va)) TLFixed [] d s N E) as [g' HY].
+  apply (yield_attached va true (FacFixed false)) in HY.
   pose proof (ROY (mkNsCfg true (FacFixed false)) TLNew [] d N) as R.
   unfold cfg_list in HY. cbn [c_ns] in HY. rewrite HY in R. simpl fst in R. simpl snd in R.
   destruct R as [sb [EB [_ [_ FB]]]].
@@ -107,7 +108,7 @@ Qed.
    (Tree.get and TreeList.get(collection_offset=..) vs TreeList.get) - exact, both directions *)
 Lemma blocks_vs_list_l : forall (d : doc),
   NoSets upper (fst d) ->
-  match RB Nexus cfg_blocks [] d with
+  match RB Nexus (cfg_blocks va) [] d with
   | Ok (blocks, ns) => TLR Nexus [] d = Ok (concat blocks, ns)
   | Err e => TLR Nexus [] d = Err e
   | OutOfFuel => TLR Nexus [] d = OutOfFuel
@@ -115,10 +116,10 @@ Lemma blocks_vs_list_l : forall (d : doc),
 Proof.
   intros d N. unfold read_blocks, treelist_read.
   pose proof (list_vs_blocks T lower upper parse_tree set_label add_comments parse_tree_suf upper_idem
-                (c_ns cfg_list) [] d N) as H.
-  change (mkCfg (c_ns cfg_list) TLNew) with cfg_blocks in H.
-  change (mkCfg (c_ns cfg_list) TLFixed) with cfg_list in H.
-  destruct (NR cfg_blocks [] d) as [sb|e|]; cbn [bind].
+                (c_ns (cfg_list va)) [] d N) as H.
+  change (mkCfg (c_ns (cfg_list va)) TLNew) with (cfg_blocks va) in H.
+  change (mkCfg (c_ns (cfg_list va)) TLFixed) with (cfg_list va) in H.
+  destruct (NR (cfg_blocks va) [] d) as [sb|e|]; cbn [bind].
   - destruct H as [sl [EL [F [K G]]]]. rewrite EL. cbn [bind]. unfold rs_ns0. rewrite K, F. reflexivity.
   - rewrite H. reflexivity.
   - rewrite H. reflexivity.
@@ -127,20 +128,20 @@ Qed.
 (* offset_selection, NEXUS *)
 Lemma offset_selection_nexus_l : forall (d : doc),
   NoSets upper (fst d) ->
-  forall blocks ns, RB Nexus cfg_blocks [] d = Ok (blocks, ns) ->
+  forall blocks ns, RB Nexus (cfg_blocks va) [] d = Ok (blocks, ns) ->
   (* the flat list is the concatenation *)
   TLR Nexus [] d = Ok (concat blocks, ns)
   (* Tree.get(c, k) is Python indexing into the collections *)
-  /\ (forall c k, tree_get T lower upper parse_tree set_label add_comments Nexus c k d
-                  = select_tree T set_label blocks (match c with Some c => c | None => 0 end)
+  /\ (forall c k, tree_get T lower upper parse_tree set_label add_comments va vk Nexus c k d
+                  = select_tree T set_label vk blocks (match c with Some c => c | None => 0 end)
                                 (match k with Some k => k | None => 0 end))
   /\ (forall (c k : nat) b t, nth_error blocks c = Some b -> nth_error b k = Some t ->
-        tree_get T lower upper parse_tree set_label add_comments Nexus (Some (Z.of_nat c)) (Some (Z.of_nat k)) d
-        = Ok (set_label t None)
+        tree_get T lower upper parse_tree set_label add_comments va vk Nexus (Some (Z.of_nat c)) (Some (Z.of_nat k)) d
+        = Ok (got_label T set_label vk t)
         /\ nth_error (concat blocks) (length (concat (firstn c blocks)) + k) = Some t)
   (* TreeList.get(collection_offset, tree_offset) is the tail of one collection *)
   /\ (forall c k, (c <> None \/ k <> None) ->
-        treelist_get_off T lower upper parse_tree set_label add_comments Nexus c k d
+        treelist_get_off T lower upper parse_tree set_label add_comments va Nexus c k d
         = select_offsets T blocks (match c with Some c => c | None => 0 end) k).
 Proof.
   intros d N blocks ns H. pose proof (blocks_vs_list_l d N) as HL. rewrite H in HL.
@@ -154,10 +155,10 @@ Qed.
 
 (* the full parse failed: every offset route fails the same way *)
 Lemma offset_routes_fail_l : forall sch (d : doc) e,
-  RB sch cfg_blocks [] d = Err e ->
-  (forall c k, tree_get T lower upper parse_tree set_label add_comments sch c k d = Err e)
+  RB sch (cfg_blocks va) [] d = Err e ->
+  (forall c k, tree_get T lower upper parse_tree set_label add_comments va vk sch c k d = Err e)
   /\ (forall c k, (c <> None \/ k <> None) ->
-        treelist_get_off T lower upper parse_tree set_label add_comments sch c k d = Err e).
+        treelist_get_off T lower upper parse_tree set_label add_comments va sch c k d = Err e).
 Proof.
   intros sch d e H. split.
   - intros. unfold tree_get. rewrite H. reflexivity.
